@@ -37,7 +37,7 @@ func (Snippets) String() string {
 func (f Snippets) Frag(ctx context.Context) iter.Seq[string] {
 	return func(yield func(string) bool) {
 		for c := range f {
-			if c.IsNil() {
+			if c == nil || c.IsNil() {
 				continue
 			}
 
